@@ -49,7 +49,7 @@ static YR_RULES* keep_r1;
 
 typedef struct { uint64_t h; int n; int stop_at; int mode; int sleep_ms; } TRACE;
 typedef struct { int rc; uint64_t h; int n; } RES;
-typedef struct { int idx, kind, iters, seed; RES* out; } JOB;
+typedef struct { int idx, kind, iters, seed; RES* out; int fresh; } JOB;   // fresh: reference run — a reused scanner is replaced by a new one per scan
 
 static uint64_t fnv(uint64_t h, const void* p, size_t n) { const uint8_t* b = (const uint8_t*) p; for (size_t i = 0; i < n; i++) { h ^= b[i]; h *= 0x100000001b3ULL; } return h; }
 
@@ -116,7 +116,8 @@ static void work(JOB* j)
   YR_SCANNER* reuse = NULL;
   for (int it = 0; it < j->iters; it++)
   {
-    int b = (j->idx * 7 + it * 3 + j->seed) % NBUF;
+    int b = (j->kind == K_REUSE) ? (int) (((unsigned) (j->idx * 2654435761u + j->seed * 40503u) >> 3) + it * (1 + (j->idx + j->seed) % 5)) % NBUF
+                                 : (j->idx * 7 + it * 3 + j->seed) % NBUF;
     TRACE t = {0xcbf29ce484222325ULL, 0, 0, 0, 0};
     int rc = -1;
     int flags = SCAN_FLAGS_REPORT_RULES_MATCHING | SCAN_FLAGS_REPORT_RULES_NOT_MATCHING;
@@ -125,6 +126,7 @@ static void work(JOB* j)
     case K_RULES_MEM: rc = yr_rules_scan_mem(rules, bufs[b], blen[b], flags, cb, &t, 0); break;
     case K_RULES_FILE: rc = yr_rules_scan_file(rules, bpath[b], flags, cb, &t, 0); break;
     case K_REUSE:
+      if (j->fresh && reuse) { yr_scanner_destroy(reuse); reuse = NULL; }   // reference: what this scan reports with a scanner that has no history
       if (!reuse) { if (yr_scanner_create(rules, &reuse) != ERROR_SUCCESS) break; }
       define_ext(reuse, j->idx + it);
       yr_scanner_set_callback(reuse, cb, &t); yr_scanner_set_flags(reuse, flags);
@@ -271,6 +273,23 @@ int main(int argc, char** argv)
   yr_compiler_define_integer_variable(comp, "ext_i", 0); yr_compiler_define_string_variable(comp, "ext_s", "t0");
   yr_compiler_define_boolean_variable(comp, "ext_b", 0); yr_compiler_define_float_variable(comp, "ext_f", 0.0);
   if (yr_compiler_add_string(comp, RULES_SRC, NULL) != 0) DIE("rules: line %d: %s", e.line, e.msg);
+  // 12 more namespaces (> 8), > 64 rules and > 64 strings in total; every namespace has a global rule that fails on exactly one of the buffers,
+  // so which namespaces are suppressed flips from scan to scan of a reused scanner
+  for (int i = 0; i < 12; i++)
+  {
+    char ns[16], src[4096]; int o = 0;
+    snprintf(ns, sizeof ns, "ns%d", i);
+    o += snprintf(src + o, sizeof src - o, "global rule g { condition: filesize != %zu }\n", blen[i % NBUF]);
+    o += snprintf(src + o, sizeof src - o, "rule a { strings: $s = \"needle\" $t = \"haystack\" nocase condition: any of them }\n rule t { condition: true }\n");
+    o += snprintf(src + o, sizeof src - o, "rule h { strings: $h = { 00 01 ?? 03 } condition: $h or g }\n rule r { strings: $r = /n(e|o){2}dle[0-9]?/ condition: #r > 0 and t }\n");
+    if (i == 0)
+    {
+      o += snprintf(src + o, sizeof src - o, "rule many { strings:");
+      for (int k = 0; k < 70; k++) o += snprintf(src + o, sizeof src - o, " $m%d = \"q%cz%c%dw\"", k, 'a' + k % 10, 'a' + (k / 10), k % 10);
+      o += snprintf(src + o, sizeof src - o, " condition: 3 of them or #m1 > 100 }\n");
+    }
+    if (yr_compiler_add_string(comp, src, ns) != 0) DIE("ns rules %d: line %d: %s", i, e.line, e.msg);
+  }
   if (yr_compiler_get_rules(comp, &old_rules) != ERROR_SUCCESS) DIE("get_rules");
   yr_compiler_destroy(comp);
   ro_ok = relocate_readonly(old_rules);
@@ -291,7 +310,7 @@ int main(int argc, char** argv)
       FAULT* fs = (FAULT*) calloc(nt, sizeof(FAULT)); pthread_t* th = (pthread_t*) calloc(nt, sizeof(pthread_t));
       JOB* js = (JOB*) calloc(nt, sizeof(JOB));
       pthread_barrier_init(&bar, NULL, nt);
-      for (int i = 0; i < nt; i++) { js[i] = (JOB){i, i % 4, 1, atoi(t[3]), (RES*) calloc(1, sizeof(RES))}; pthread_create(&th[i], NULL, thr, &js[i]); }
+      for (int i = 0; i < nt; i++) { js[i] = (JOB){i, i % 4, 1, atoi(t[3]), (RES*) calloc(1, sizeof(RES)), 0}; pthread_create(&th[i], NULL, thr, &js[i]); }
       for (int i = 0; i < nt; i++) pthread_join(th[i], NULL);
       pthread_barrier_destroy(&bar);
       int rc_fin = yr_finalize();
@@ -319,8 +338,9 @@ int main(int argc, char** argv)
       int kind = (i * 5 + seed) % (K_NKINDS - 1);             // K_TIMEOUT only on request (slow): one thread when seed % 4 == 3
       if (seed % 4 == 3 && i == nt / 2 && ntimeout == 0) { kind = K_TIMEOUT; ntimeout++; }
       kinds[kind]++;
-      seqj[i] = (JOB){i, kind, kind == K_TIMEOUT ? 1 : iters, seed, (RES*) calloc(iters, sizeof(RES))};
-      conj[i] = (JOB){i, kind, kind == K_TIMEOUT ? 1 : iters, seed, (RES*) calloc(iters, sizeof(RES))};
+      int its = kind == K_TIMEOUT ? 1 : (kind == K_REUSE ? iters * 4 : iters);
+      seqj[i] = (JOB){i, kind, its, seed, (RES*) calloc(its, sizeof(RES)), 1};
+      conj[i] = (JOB){i, kind, its, seed, (RES*) calloc(its, sizeof(RES)), 0};
     }
     uint64_t h0 = rules_hash();
     hnd_inside_bad = 0; hnd_outside_bad = 0;
